@@ -488,6 +488,11 @@ func evalTagCond(c *lql.Condition, tags map[string]string) (bool, bool) {
 
 // meaning of a source / filter as vectors over the samples ("?" = cannot be evaluated)
 func sourceMeaning(s *lql.Source) string {
+	if s != nil && s.Tags != nil {
+		// a {tags} source selects the partitions whose tags include every pair: it denotes exactly its set of pairs
+		// (the vector over the sample tag sets cannot tell "web " from "web")
+		return "tags" + fmt.Sprintf("%q", tag.VC12TagPairs(s.Tags.Tags))
+	}
 	var sb strings.Builder
 	for _, t := range sampleTagsets {
 		b, ok := evalSource(s, t)
@@ -684,6 +689,11 @@ func stmtCase(rp Replay) (*Case, error) {
 		}
 		cs.Oracle = &Violation{Class: cls, Detail: fmt.Sprintf("%q parses, its print %q does not: %v", rp.Text, p, err2)}
 	}
+	if cs.Oracle == nil {
+		if d := nodeStrings(l1, p); d != "" {
+			cs.Oracle = &Violation{Class: "stmt-node-string-differs", Detail: fmt.Sprintf("%q: %s", rp.Text, d)}
+		}
+	}
 	cs.Coq = GApp("KStmt", GStr(rp.Text), env.gallina(), GApp("SOk", gLql(l1), GStr(p), re))
 	cs.NonTrivial = strings.Count(p, " ") >= 6
 	return cs, nil
@@ -699,6 +709,106 @@ func hasFraction(l *lql.Lql) bool {
 		return fr(t.Before)
 	}
 	return false
+}
+
+// some value of the {tags} source satisfies p
+func tagsValue(s *lql.Source, p func(string) bool) bool {
+	for _, kv := range tag.VC12TagPairs(s.Tags.Tags) {
+		if p(kv[1]) {
+			return true
+		}
+	}
+	return false
+}
+
+// nodeStrings: the String() methods of the nodes below Lql and the accessors of Truncate agree with the statement's own print
+// and fields (they are the API other packages print and read a parsed statement with)
+func nodeStrings(l *lql.Lql, p string) string {
+	switch {
+	case l.Truncate != nil:
+		t := l.Truncate
+		if t.String() != p {
+			return fmt.Sprintf("Truncate.String() = %q, the statement prints %q", t.String(), p)
+		}
+		if t.IsDryRun() != t.DryRun || t.GetMinSize() != t.MinSize.GetValue() || t.GetMaxSize() != t.MaxSize.GetValue() || t.GetBefore() != t.Before.GetValue() {
+			return "Truncate accessors differ from the fields"
+		}
+		if (t.MinSize == nil && t.GetMinSize() != 0) || (t.MinSize != nil && t.GetMinSize() != uint64(*t.MinSize)) ||
+			(t.Before == nil && t.GetBefore() != 0) || (t.Before != nil && t.GetBefore() != uint64(*t.Before)) {
+			return "Truncate accessors differ from the fields"
+		}
+		// GetTagsCond() is the source as text: it must denote the source
+		if s2, err := lql.ParseSource(t.GetTagsCond()); err != nil || sourceMeaning(s2) != sourceMeaning(t.Source) {
+			if t.Source == nil || t.Source.Tags == nil || !(tagsValue(t.Source, func(v string) bool { return strings.IndexByte(v, '"') > 0 || strings.Contains(v, "\n") })) {
+				return fmt.Sprintf("Truncate.GetTagsCond() = %q does not denote the statement's source (%v)", t.GetTagsCond(), err)
+			}
+		}
+	case l.Show != nil:
+		if l.Show.String() != p {
+			return fmt.Sprintf("Show.String() = %q, the statement prints %q", l.Show.String(), p)
+		}
+	case l.Describe != nil:
+		if l.Describe.String() != p {
+			return fmt.Sprintf("Describe.String() = %q, the statement prints %q", l.Describe.String(), p)
+		}
+	case l.Select != nil:
+		s := l.Select
+		if s.Range != nil && !strings.Contains(p, " RANGE"+s.Range.String()) {
+			return fmt.Sprintf("Range.String() = %q is not what the statement prints: %q", s.Range.String(), p)
+		}
+		if s.Source != nil && !strings.Contains(p, " FROM"+s.Source.String()) {
+			return fmt.Sprintf("Source.String() = %q is not what the statement prints: %q", s.Source.String(), p)
+		}
+		if s.Where != nil && !strings.Contains(p, " WHERE"+s.Where.String()) {
+			return fmt.Sprintf("Expression.String() = %q is not what the statement prints: %q", s.Where.String(), p)
+		}
+	}
+	return ""
+}
+
+// condStrings: Condition.String() and Identifier.String() of every condition are what the expression prints for it
+func condStrings(e *lql.Expression, p string) string {
+	if e == nil {
+		return ""
+	}
+	for _, oc := range e.Or {
+		for _, xc := range oc.And {
+			if xc.Expr != nil {
+				if d := condStrings(xc.Expr, p); d != "" {
+					return d
+				}
+				continue
+			}
+			c := xc.Cond
+			want := " " + c.Ident.String() + " " + c.Op + " " + strconv.Quote(c.Value)
+			if c.String() != want || !strings.Contains(p, want) {
+				return fmt.Sprintf("Condition.String() = %q, Identifier.String() = %q, the expression prints %q", c.String(), c.Ident.String(), p)
+			}
+		}
+	}
+	return ""
+}
+
+// String() of an absent node is the empty text (what the printers rely on for optional members)
+func nilNodes() string {
+	var (
+		l  *lql.Lql
+		r  *lql.Range
+		s  *lql.Source
+		e  *lql.Expression
+		c  *lql.Condition
+		id *lql.Identifier
+		d  *lql.Describe
+		t  *lql.Truncate
+		sh *lql.Show
+		dt *lql.DateTime
+		sz *lql.Size
+	)
+	got := l.String() + r.String() + s.String() + e.String() + c.String() + id.String() + d.String() + t.String() + sh.String() + dt.String()
+	if got != "" || dt.GetValue() != 0 || sz.GetValue() != 0 {
+		return fmt.Sprintf("absent nodes print %q", got)
+	}
+	return ""
 }
 
 func sizeOver(s *lql.Size) bool { return s != nil && uint64(*s) >= 1<<63 }
@@ -752,6 +862,11 @@ func exprCase(rp Replay) (*Case, error) {
 	} else {
 		cs.Oracle = &Violation{Class: "expr-print-not-reparsable", Detail: fmt.Sprintf("%q parses, its print %q does not: %v", rp.Text, p, err2)}
 	}
+	if cs.Oracle == nil {
+		if d := condStrings(e1, p); d != "" {
+			cs.Oracle = &Violation{Class: "expr-node-string-differs", Detail: fmt.Sprintf("%q: %s", rp.Text, d)}
+		}
+	}
 	cs.Coq = GApp("KExpr", GStr(rp.Text), env.gallina(), GApp("EOk", gExpr(e1), GStr(p), re))
 	cs.Tags = []string{"expr:parsed"}
 	return cs, nil
@@ -791,6 +906,13 @@ func sourceCase(rp Replay) (*Case, error) {
 		cls := "source-print-not-reparsable"
 		if s1.Tags != nil {
 			cls = "source-tags-print-not-reparsable"
+			// the two shapes tag.Set.Line() is known to print unquoted (see known_findings.d/C12.txt); anything else is new
+			switch {
+			case tagsValue(s1, func(v string) bool { return strings.Contains(v, "\n") }):
+				cls = "source-tags-line-break-not-reparsable"
+			case tagsValue(s1, func(v string) bool { return strings.IndexByte(v, '"') > 0 }):
+				cls = "source-tags-inner-dquote-not-reparsable"
+			}
 		}
 		cs.Oracle = &Violation{Class: cls, Detail: fmt.Sprintf("%q parses, its print %q does not: %v", rp.Text, p, err2)}
 	}
@@ -885,6 +1007,21 @@ func pipeCase(rp Replay, srv *Server, seq *int) (*Case, error) {
 		return cs, nil
 	}
 	p := l.Create.Pipe
+	// a {tags} source is also asked about its own tag set and a superset of it (it must select both, before and after
+	// the conditions went through print and re-parse)
+	maps := append([]map[string]string{}, sampleTagsets...)
+	if p.From != nil && p.From.Tags != nil {
+		own, more := map[string]string{}, map[string]string{"zz-extra": "1"}
+		for _, kv := range tag.VC12TagPairs(p.From.Tags.Tags) {
+			own[kv[0]], more[kv[0]] = kv[1], kv[1]
+		}
+		for _, m := range []map[string]string{own, more} {
+			maps = append(maps, m)
+			st := tag.MapToSet(m)
+			sets = append(sets, st)
+			tsets = append(tsets, gTagset(st))
+		}
+	}
 	env.addLql(l)
 	tc, fc := p.From.String(), p.Where.String()
 	env.addTokens(tc)
@@ -938,12 +1075,12 @@ func pipeCase(rp Replay, srv *Server, seq *int) (*Case, error) {
 			it = append(it, r)
 			if sderr == nil {
 				if d := gWres(func() bool { return srcD(s) }); d != r {
-					fail("pipe-source-meaning-changed", fmt.Sprintf("%q: on tags %v the stored source condition %q gives %s, S gives %s", rp.Text, sampleTagsets[i], tc, r, d))
+					fail("pipe-source-meaning-changed", fmt.Sprintf("%q: on tags %v the stored source condition %q gives %s, S gives %s", rp.Text, maps[i], tc, r, d))
 				}
 			}
 			// independent meaning of S
-			if want, ok := evalSource(p.From, sampleTagsets[i]); ok && r != "WPanic" && (r == "WTrue") != want {
-				fail("pipe-source-meaning-changed", fmt.Sprintf("%q: on tags %v the pipe's source function gives %s, S means %v", rp.Text, sampleTagsets[i], r, want))
+			if want, ok := evalSource(p.From, maps[i]); ok && r != "WPanic" && (r == "WTrue") != want {
+				fail("pipe-source-meaning-changed", fmt.Sprintf("%q: on tags %v the pipe's source function gives %s, S means %v", rp.Text, maps[i], r, want))
 			}
 		}
 		src = GSome(GList(it))
@@ -1013,6 +1150,16 @@ var corpus = []Replay{
 	{Kind: "stmt", Text: `DESCRIBE PARTITION {a=b,c="d e"}`}, {Kind: "stmt", Text: `DESCRIBE PIPE p.1`}, {Kind: "stmt", Text: ` DELETE PIPE p:1/x-y`},
 	{Kind: "stmt", Text: ``}, {Kind: "expr", Text: ``}, {Kind: "source", Text: ``},
 	{Kind: "source", Text: `{a=b} OR c=d`}, {Kind: "source", Text: `{a="x,y",c=d}`}, {Kind: "source", Text: `{a="q\"uote"}`},
+	// tag.Set.Line() quotes per value and position: every delicate value first, in the middle and last (name order decides)
+	{Kind: "source", Text: `{a="web ",b=eu,c=z}`}, {Kind: "source", Text: `{a=eu,b="web ",c=z}`}, {Kind: "source", Text: `{a=eu,b=z,c="web "}`},
+	{Kind: "source", Text: `{a=" web",b=eu,c=z}`}, {Kind: "source", Text: `{a=eu,b=" web",c=z}`}, {Kind: "source", Text: `{a=eu,b=z,c=" web"}`},
+	{Kind: "source", Text: `{a="x}",b=eu,c=z}`}, {Kind: "source", Text: `{a=eu,b="x}",c=z}`}, {Kind: "source", Text: `{a=eu,b=z,c="x}"}`},
+	{Kind: "source", Text: "{a=`\"q`,b=eu,c=z}"}, {Kind: "source", Text: "{a=eu,b=\"`q\",c=z}"}, {Kind: "source", Text: `{a=eu,b=z,c="x,y"}`},
+	{Kind: "source", Text: "{a=\"new\\nline\",b=c}"}, {Kind: "source", Text: `{a=b,c="in\"ner"}`},
+	{Kind: "source", Text: `{a="k=v",b="",c=" "}`}, {Kind: "source", Text: `{a="web ",b=" web ",c="web  "}`},
+	{Kind: "stmt", Text: `SELECT FROM {host="web ",zone=eu} LIMIT 5`}, {Kind: "stmt", Text: `TRUNCATE {host=eu,zone="web "}`},
+	{Kind: "stmt", Text: `SHOW PARTITIONS {a=" x",b="y ",c=z} LIMIT 3`}, {Kind: "stmt", Text: `DESCRIBE PARTITION {host="web ",zone=eu}`},
+	{Kind: "pipe", Text: `CREATE PIPE p FROM {host="web ",zone=eu}`},
 	{Kind: "expr", Text: `a = 'q"uote' and b="\x41\101é" or NOT (c>=d.e/f-1:2 and upper(lower(t))<x)`},
 	{Kind: "pipe", Text: `CREATE PIPE p FROM name=app1 OR name like "app*" WHERE msg contains "err" AND NOT ts < 5`},
 	{Kind: "pipe", Text: `CREATE PIPE p FROM {name=app1} WHERE fields:a = x`},
@@ -1080,6 +1227,10 @@ func main() {
 				return err
 			}
 			return c.Finish(rule)
+		}
+		if d := nilNodes(); d != "" {
+			c.Add(Case{Replay: Replay{Kind: "quote", Text: ""}, Stream: "corpus", Coq: GApp("KQuote", "[]", GStr(`""`)), Key: "nil-nodes",
+				Oracle: &Violation{Class: "absent-node-prints-text", Detail: d}})
 		}
 		for _, rp := range corpus {
 			rp.Stream = "corpus"
